@@ -305,3 +305,40 @@ def selftest_npstub(_p=None):
     if np.dtype(np.float64) != np.float64 or nps.SDtype('float64') != nps.float64:
         return {'ok': False, 'detail': 'dtype == scalar type'}
     return {'ok': True, 'cases': cases}
+
+
+def selftest_npvalues(_p=None):
+    """npvalues vs real numpy on integer index arrays: diff (same-dtype wrap), astype(int64), unique, median == 0,
+    min/max, comparisons."""
+    import numpy as np
+    from vf.stubs import npvalues as npv
+    rnd = random.Random(5)
+    cases = 0
+    for name in ('int8', 'int16', 'int32', 'uint8', 'uint16', 'uint32'):
+        info = np.iinfo(name)
+        for _ in range(150):
+            n = rnd.randrange(1, 5)
+            vals = [rnd.choice([info.min, info.max, 0, 1, info.max - 1, rnd.randrange(info.min, info.max + 1)]) for _ in range(n)]
+            real = np.array(vals, dtype=name)
+            stub = npv.VArr(vals, npv.IDtype(name))
+            cases += 1
+            if np.diff(real).tolist() != npv.diff(stub).vals:
+                return {'ok': False, 'detail': f'diff {name} {vals}: {np.diff(real).tolist()} vs {npv.diff(stub).vals}'}
+            wide = real.astype(np.int64)
+            if np.diff(wide).tolist() != npv.diff(stub.astype(npv.int64)).vals:
+                return {'ok': False, 'detail': f'diff after astype(int64) {name} {vals}'}
+            if np.unique(np.diff(wide)).tolist() != npv.unique(npv.diff(stub.astype(npv.int64))).vals:
+                return {'ok': False, 'detail': 'unique'}
+            if int(real.min()) != stub.min() or int(real.max()) != stub.max():
+                return {'ok': False, 'detail': 'min/max'}
+            if n >= 2:
+                d = np.diff(wide)
+                if (np.median(d).item() == 0) != (npv.median(npv.diff(stub.astype(npv.int64))).item() == 0):
+                    return {'ok': False, 'detail': 'median == 0'}
+                u = np.unique(d)
+                su = npv.unique(npv.diff(stub.astype(npv.int64)))
+                if bool((u == 0).all()) != (su == 0).all() or bool((u >= 0).all()) != (su >= 0).all() or bool((u <= 0).all()) != (su <= 0).all():
+                    return {'ok': False, 'detail': 'comparisons'}
+            if not np.issubdtype(real.dtype, np.integer) or not npv.issubdtype(stub.dtype, npv.integer):
+                return {'ok': False, 'detail': 'issubdtype'}
+    return {'ok': True, 'cases': cases}
